@@ -199,6 +199,8 @@ func mapOrderInDecl(c *Ctx, r *Report, info *types.Info, fd *ast.FuncDecl, rule 
 				idx++
 				if why, ok := exceptions[fmt.Sprintf("%s/range-%s", fname, exprStr(x.X))]; ok {
 					r.ok(rule, key, c.pos(x.Pos()), "frozen exception: "+why)
+				} else if fact := singletonFact(info, fd, x); fact != "" {
+					r.ok(rule, key, c.pos(x.Pos()), "map has at most one entry here ("+fact+"): iteration order is immaterial")
 				} else {
 					verdict, detail := mapRangeBody(c, info, x, rest)
 					switch verdict {
@@ -253,6 +255,7 @@ func mapRangeBody(c *Ctx, info *types.Info, rg *ast.RangeStmt, rest []ast.Stmt) 
 	var appended []string // slices appended to (as expression strings)
 	orderFree := true
 	var why string
+	depth := 0
 	var check func(list []ast.Stmt)
 	check = func(list []ast.Stmt) {
 		for _, s := range list {
@@ -302,14 +305,14 @@ func mapRangeBody(c *Ctx, info *types.Info, rg *ast.RangeStmt, rest []ast.Stmt) 
 			case *ast.BlockStmt:
 				check(x.List)
 			case *ast.BranchStmt:
-				if x.Tok == token.BREAK || x.Tok == token.GOTO {
+				if (x.Tok == token.BREAK && depth == 0) || x.Tok == token.GOTO {
 					orderFree = false
 					why = "early exit from a map range selects an iteration-order dependent element"
 				}
 			case *ast.ExprStmt:
 				if call, ok := x.X.(*ast.CallExpr); ok {
-					if b, ok := info.Uses[identOf(call.Fun)].(*types.Builtin); ok && b.Name() == "delete" {
-						continue
+					if b, ok := info.Uses[identOf(call.Fun)].(*types.Builtin); ok && (b.Name() == "delete" || b.Name() == "panic") {
+						continue // panic aborts the run: no output order is produced
 					}
 					orderFree = false
 					why = "call " + exprStr(call.Fun) + " inside a map range happens in iteration order"
@@ -318,9 +321,13 @@ func mapRangeBody(c *Ctx, info *types.Info, rg *ast.RangeStmt, rest []ast.Stmt) 
 				orderFree = false
 				why = "return inside a map range selects an iteration-order dependent element"
 			case *ast.RangeStmt:
+				depth++
 				check(x.Body.List)
+				depth--
 			case *ast.ForStmt:
+				depth++
 				check(x.Body.List)
+				depth--
 			case *ast.DeclStmt:
 			default:
 				orderFree = false
@@ -533,4 +540,71 @@ func storeRootV(v ssa.Value, seen map[ssa.Value]bool) string {
 		return storeRootV(n.X, seen)
 	}
 	return "unknown"
+}
+
+// singletonFact: the ranged map is known to hold at most one entry at the range statement: the
+// statement sits inside `if n == 1` / `if len(m) == 1` (n := len(m)), or is preceded in the function
+// by `if len(m) > 1 { panic(...) }`.
+func singletonFact(info *types.Info, fd *ast.FuncDecl, rg *ast.RangeStmt) string {
+	m := exprStr(rg.X)
+	lenVars := map[string]bool{"len(" + m + ")": true}
+	ast.Inspect(fd.Body, func(n ast.Node) bool {
+		if as, ok := n.(*ast.AssignStmt); ok && len(as.Lhs) == 1 && len(as.Rhs) == 1 && exprStr(as.Rhs[0]) == "len("+m+")" {
+			lenVars[exprStr(as.Lhs[0])] = true
+		}
+		return true
+	})
+	fact := ""
+	var path []ast.Node
+	ast.Inspect(fd.Body, func(n ast.Node) bool {
+		if n == nil {
+			path = path[:len(path)-1]
+			return true
+		}
+		path = append(path, n)
+		if n == ast.Node(rg) {
+			for i := len(path) - 2; i >= 0; i-- {
+				ifs, ok := path[i].(*ast.IfStmt)
+				if !ok {
+					continue
+				}
+				// inside the then-branch?
+				inThen := i+1 < len(path) && path[i+1] == ast.Node(ifs.Body)
+				if be, ok := unparen(ifs.Cond).(*ast.BinaryExpr); ok && inThen && be.Op == token.EQL && lenVars[exprStr(be.X)] {
+					if v, ok := exprInt(info, be.Y); ok && v == 1 {
+						fact = "inside `if " + exprStr(ifs.Cond) + "`"
+					}
+				}
+			}
+		}
+		return true
+	})
+	if fact != "" {
+		return fact
+	}
+	// earlier guard: if len(m) > 1 { panic }
+	for _, s := range fd.Body.List {
+		if s.Pos() >= rg.Pos() {
+			break
+		}
+		ifs, ok := s.(*ast.IfStmt)
+		if !ok || len(ifs.Body.List) != 1 {
+			continue
+		}
+		be, ok := unparen(ifs.Cond).(*ast.BinaryExpr)
+		if !ok || be.Op != token.GTR || !lenVars[exprStr(be.X)] {
+			continue
+		}
+		if v, ok := exprInt(info, be.Y); !ok || v != 1 {
+			continue
+		}
+		if es, ok := ifs.Body.List[0].(*ast.ExprStmt); ok {
+			if call, ok := es.X.(*ast.CallExpr); ok {
+				if b, ok := info.Uses[identOf(call.Fun)].(*types.Builtin); ok && b.Name() == "panic" {
+					return "after `if " + exprStr(ifs.Cond) + " { panic }`"
+				}
+			}
+		}
+	}
+	return ""
 }
